@@ -122,9 +122,32 @@ type Loc struct {
 	typ  types.Type // pointee type
 	root int
 	base Term
-	idx  Term
+	idx  Term // element index relative to off (rootElem)
+	off  Term // slice offset (rootElem)
 	comp string
 	path []pathStep
+}
+
+// slElem reads element j of a slice view (backing array contents A, offset o).
+// It is an uninterpreted function with the defining axiom
+//   sl_elem(A, o, j) == select(A, o + j)
+// so that quantified facts about slice elements have an arithmetic-free
+// trigger (e-matching cannot match inside (+ o j)).
+func (c *Ctx) slElem(A, o, j Term) Term {
+	es := elemOfArr(A.Sort)
+	name := "sl_elem_" + sanitize(string(es))
+	if !c.declared[name] {
+		c.declare(name, fmt.Sprintf("(declare-fun %s (%s %s %s) %s)", name, A.Sort, c.I(), c.I(), es))
+		plus := "+"
+		if c.mode == "bv" {
+			plus = "bvadd"
+		}
+		ax := fmt.Sprintf("(forall ((A!e %s) (o!e %s) (j!e %s)) (! (= (%s A!e o!e j!e) (select A!e (%s o!e j!e))) :pattern ((%s A!e o!e j!e))))",
+			A.Sort, c.I(), c.I(), name, plus, name)
+		// the axiom must be visible to every obligation: insert it at the front
+		c.facts = append([]Fact{{seq: 0, text: ax}}, c.facts...)
+	}
+	return app(es, name, A, o, j)
 }
 
 const (
@@ -219,7 +242,7 @@ func (c *Ctx) load(st *State, l *Loc) Term {
 		return c.getPath(root, l.path)
 	case rootElem:
 		inner := app(elemOfArr(c.compSort[l.comp]), "select", c.get(st, l.comp), l.base)
-		root := app(elemOfArr(inner.Sort), "select", inner, l.idx)
+		root := c.slElem(inner, l.off, l.idx)
 		return c.getPath(root, l.path)
 	case rootGlobal:
 		return c.getPath(c.get(st, l.comp), l.path)
@@ -249,10 +272,10 @@ func (c *Ctx) store(st *State, l *Loc, v Term) {
 		inner := app(elemOfArr(cur.Sort), "select", cur, l.base)
 		nv := v
 		if len(l.path) > 0 {
-			root := app(elemOfArr(inner.Sort), "select", inner, l.idx)
+			root := c.slElem(inner, l.off, l.idx)
 			nv = c.setPath(root, l.path, v)
 		}
-		c.set(st, l.comp, tStore(cur, l.base, tStore(inner, l.idx, nv)))
+		c.set(st, l.comp, tStore(cur, l.base, tStore(inner, c.iadd(l.off, l.idx), nv)))
 	case rootGlobal:
 		cur := c.get(st, l.comp)
 		c.set(st, l.comp, c.setPath(cur, l.path, v))
